@@ -12,6 +12,16 @@
 (* Viterbi path must have exactly the maximal weight.  The machine is      *)
 (* stateless, one action consumes one event; an event the contract does    *)
 (* not explain stops the trace (POSTCONDITION TraceAccepted fails).        *)
+(*                                                                         *)
+(* HISTORIES.  Part of the trials keep ONE object alive: "hnew"/"mnew"     *)
+(* announce it, "hchg"/"mchg" are parameter changes (SetParameters,        *)
+(* SetStartStates, SetFinalStates, Clone) and the calls logged with h = 1  *)
+(* are made on that object.  The specification keeps the current           *)
+(* parameters in the state variables `cur` (HMM) and `curm` (mixture),     *)
+(* applies the changes with the operators of HMMCore (the same ones        *)
+(* HMMHist.tla uses) and accepts a call with h = 1 only if the parameters  *)
+(* logged with it ARE the current ones - the result is then checked        *)
+(* against the enumeration for them like any other call.                   *)
 (***************************************************************************)
 EXTENDS HMMCore, Json
 
@@ -74,13 +84,50 @@ MixOK(e) ==
           [] e.op = "likelihood" -> wS > 0 => Close(e.v, jS, wS * ed)
           [] OTHER -> FALSE
 
-EventOK(e) == CASE e.e = "hmm" -> HmmOK(e) [] e.e = "mix" -> MixOK(e) [] OTHER -> FALSE
+NoHmm == [m |-> 0, smap |-> <<>>, em |-> <<>>, eden |-> 0, p |-> [pi |-> <<>>, tr |-> <<>>, start |-> {}, final |-> {}]]
+NoMix == [k |-> 0, w |-> <<>>, em |-> <<>>, eden |-> 0]
 
-TraceInit == l = 1
-(* `EventOK(Ev) = TRUE` (not just `EventOK(Ev)`): TLC then evaluates the predicate as a *)
-(* value, with cached LET definitions, instead of expanding it as an action formula.  *)
-TraceNext == l <= Len(Trace) /\ (EventOK(Ev) = TRUE) /\ l' = l + 1
-TraceSpec == TraceInit /\ [][TraceNext]_l
+VARIABLE hs      \* [c |-> current HMM object, cm |-> current mixture object, ok |-> last event accepted]
+
+(* parameter change of the traced HMM object; e.ck: "set" (pi, tr), "start" (s), "final" (s), "clone" *)
+HmmChange(c, e) ==
+  CASE e.ck = "clone" -> [ok |-> c.m > 0, c |-> c]
+    [] e.ck = "start" -> LET p == ApplyStart(c.m, c.p, ToSet(e.s))
+                         IN [ok |-> c.m > 0 /\ ToSet(e.s) # {} /\ ValidCur(c.m, p), c |-> [c EXCEPT !.p = p]]
+    [] e.ck = "final" -> LET p == ApplyFinal(c.p, ToSet(e.s))
+                         IN [ok |-> c.m > 0 /\ ToSet(e.s) # {} /\ ValidCur(c.m, p), c |-> [c EXCEPT !.p = p]]
+    [] e.ck = "set"   -> LET p == ApplySet(c.p, e.pi, e.tr)
+                         IN [ok |-> c.m > 0 /\ Len(e.pi) = c.m /\ Len(e.tr) = c.m
+                                    /\ SetAdmissible(c.m, c.p, e.pi) /\ ValidCur(c.m, p),
+                             c |-> [c EXCEPT !.p = p]]
+    [] OTHER -> [ok |-> FALSE, c |-> c]
+
+IsCurrentHmm(c, e) == c.m > 0 /\ ModelOf(e) = HmmModel(c.m, c.smap, c.em, c.eden, c.p)
+IsCurrentMix(c, e) == c.k > 0 /\ e.k = c.k /\ e.w = c.w /\ e.em = c.em /\ e.eden = c.eden
+
+(* one event: accepted?, and the current parameters afterwards *)
+StepOK(e, c, cm) ==
+  CASE e.e = "hmm"  -> [ok |-> (e.h = 1 => IsCurrentHmm(c, e)) /\ HmmOK(e), c |-> c, cm |-> cm]
+    [] e.e = "mix"  -> [ok |-> (e.h = 1 => IsCurrentMix(cm, e)) /\ MixOK(e), c |-> c, cm |-> cm]
+    [] e.e = "hnew" -> [ok |-> ValidModel(ModelOf(e)),
+                        c  |-> [m |-> e.m, smap |-> e.smap, em |-> e.em, eden |-> e.eden,
+                                p |-> [pi |-> PiRaw(ModelOf(e)), tr |-> e.tr, start |-> ToSet(e.start), final |-> ToSet(e.final)]],   \* pi: the effective weights (zero outside the start set)
+                        cm |-> cm]
+    [] e.e = "hchg" -> LET r == HmmChange(c, e) IN [ok |-> r.ok, c |-> r.c, cm |-> cm]
+    [] e.e = "mnew" -> [ok |-> SumInts(e.w, 1, e.k) > 0, c |-> c, cm |-> [k |-> e.k, w |-> e.w, em |-> e.em, eden |-> e.eden]]
+    [] e.e = "mchg" -> IF e.ck = "clone" THEN [ok |-> cm.k > 0, c |-> c, cm |-> cm]
+                       ELSE [ok |-> cm.k > 0 /\ e.ck = "set" /\ Len(e.w) = cm.k /\ SumInts(e.w, 1, cm.k) > 0,
+                             c |-> c, cm |-> [cm EXCEPT !.w = e.w]]
+    [] OTHER -> [ok |-> FALSE, c |-> c, cm |-> cm]
+
+TraceInit == l = 1 /\ hs = [ok |-> TRUE, c |-> NoHmm, cm |-> NoMix]
+(* `hs' = StepOK(..)` makes TLC evaluate the predicate once and as a value (cached LET  *)
+(* definitions) instead of expanding it as an action formula.                          *)
+TraceNext == /\ l <= Len(Trace)
+             /\ hs' = StepOK(Ev, hs.c, hs.cm)
+             /\ hs'.ok = TRUE
+             /\ l' = l + 1
+TraceSpec == TraceInit /\ [][TraceNext]_<<l, hs>>
 
 TraceAccepted ==
   IF TLCGet("stats").diameter - 1 = Len(Trace) THEN TRUE
